@@ -300,6 +300,8 @@ class Interp:
                 except Exception as err:
                     raise PyRaise(ExcVal(type(err), err.args))
             raise OutsideSubset("call to %s is neither under contract, extern, inlined nor whitelisted pure" % qn)
+        if not callable(f) and not isinstance(f, (Sym, Obj)):
+            py_raise(TypeError, "'%s' object is not callable" % type(f).__name__)
         raise OutsideSubset("call to %s with symbolic arguments has no model" % (name or f,))
 
     def call_method(self, obj, name, args, kwargs):
